@@ -45,6 +45,14 @@ func mkVersions(sys resolve.System, list []refmodel.Rec, perm []int) []resolve.V
 		if list[k].Tags != "" {
 			a.SetAttr(version.Tags, list[k].Tags)
 		}
+		switch list[k].Other {
+		case "Blocked":
+			a.SetAttr(version.Blocked, "")
+		case "Redirect":
+			a.SetAttr(version.Redirect, "elsewhere")
+		case "Features":
+			a.SetAttr(version.Features, "f")
+		}
 		out[i] = resolve.Version{
 			VersionKey: resolve.VersionKey{PackageKey: resolve.PackageKey{System: sys, Name: "p"}, VersionType: resolve.Concrete, Version: list[k].Version},
 			AttrSet:    a,
@@ -163,6 +171,11 @@ func drawCase(t *rapid.T, sysName string) listCase {
 			}
 		} else if sysName == "NPM" && rapid.IntRange(0, 9).Draw(t, "decoy") == 0 {
 			r.Tags = "latest-" + fmt.Sprint(i) // a different tag that merely contains "latest"
+		}
+		// a deprecated (Blocked) or otherwise attributed version lists and matches
+		// like any other
+		if rapid.IntRange(0, 3).Draw(t, "other") == 0 {
+			r.Other = rapid.SampledFrom([]string{"Blocked", "Blocked", "Redirect", "Features"}).Draw(t, "otherattr")
 		}
 		list = append(list, r)
 	}
